@@ -43,6 +43,22 @@ func initValue() {
 	Alias(c, "===", "==")
 	Def(
 		c,
+		"=~",
+		func(vm *Thread, args []value.Value) (value.Value, value.Value) {
+			// default for classes without their own `=~` (declared in headers/value.elh):
+			// the builtin lax equality when there is one, `==` otherwise
+			self := args[0]
+			other := args[1]
+			result := value.LaxEqualVal(self, other)
+			if !result.IsUndefined() {
+				return result, value.Undefined
+			}
+			return Equal(vm, self, other)
+		},
+		DefWithParameters(1),
+	)
+	Def(
+		c,
 		"copy",
 		func(_ *Thread, args []value.Value) (value.Value, value.Value) {
 			self := args[0]
